@@ -19,6 +19,7 @@ import (
 	"math/rand"
 	"net"
 	"os"
+	"reflect"
 	"sort"
 	"strings"
 	"testing"
@@ -169,6 +170,7 @@ func vbAdOf(a *bgp.Advertisement) vbAd {
 	for _, p := range a.Peers {
 		r.Peers = append(r.Peers, vbPeerIdx(p))
 	}
+	sort.Ints(r.Peers) // the peers an advertisement names are a set (their order is a representation choice)
 	return r
 }
 
@@ -708,7 +710,48 @@ func TestVerifBgpElig(t *testing.T) {
 			if got {
 				out.Stat("announce", 1)
 			}
-			out.Stat("reason:"+vbReasonCoq(obs[i]), 1)
+			out.Stat("reason:"+vbReasonCoq(obs[i]), 1) // which of the applicable reasons the code reports (free): evidence only
+			{ // generator side: which conditions of the statement fail on this input
+				sel := false
+				for _, a := range l.Advs {
+					for _, x := range a {
+						if x == 0 {
+							sel = true
+						}
+					}
+				}
+				known, un, ex := vbNodeFlags(f.Node)
+				anyAll, anyHere := false, false
+				for _, a := range vbAddrs(l) {
+					if vbReadyAll(l, a) {
+						anyAll = true
+					}
+					if vbReadyHere(l, a) {
+						anyHere = true
+					}
+				}
+				if !sel {
+					out.Stat("fails:not-selected", 1)
+				}
+				if known && un {
+					out.Stat("fails:network-unavailable", 1)
+				}
+				if known && ex && !f.Ignore {
+					out.Stat("fails:excluded", 1)
+				}
+				if !anyAll {
+					out.Stat("fails:no-endpoint", 1)
+				}
+				if f.Local && !anyHere {
+					out.Stat("fails:no-local-endpoint", 1)
+				}
+				if want {
+					out.Stat("statement-says-announce", 1)
+				}
+				if !want && vbF18Shape(l, f) {
+					out.Stat("inputs-of-the-duplicate-address-shape", 1)
+				}
+			}
 			if got != want {
 				rep := map[string]any{"layout": l, "flags": f, "decision": obs[i], "statement_says_announce": want}
 				if got && !want && vbF18Shape(l, f) {
@@ -1167,6 +1210,7 @@ func vbIntended(w *vbWorld, p int) map[string]vbAd {
 				x.Comms = append([]int{}, a.Comms...)
 				sort.Ints(x.Comms)
 				x.Peers = append([]int{}, a.Peers...)
+				sort.Ints(x.Peers)
 				res[x.key()] = x
 			}
 		}
@@ -1188,6 +1232,49 @@ func vbTrunc(ip net.IP, a vbBAdv) vbAd {
 
 func vbPfxKey(a vbAd) string { return fmt.Sprintf("%d/%s/%d", a.Fam, a.Base, a.Len) }
 
+
+// white box: the services for which the bgpController holds advertisements (its svcAds), read through reflect so that
+// the harness does not depend on the representation (a map keyed by service, or a slice of records whose first string
+// field is the service).  ok=false: representation not understood, the caller counts whitebox_skipped:svcAds.
+func vbSvcAdsKeys(bc *bgpController) (keys []string, ok bool) {
+	f := reflect.ValueOf(bc).Elem().FieldByName("svcAds")
+	if !f.IsValid() {
+		return nil, false
+	}
+	switch f.Kind() {
+	case reflect.Map:
+		if f.Type().Key().Kind() != reflect.String {
+			return nil, false
+		}
+		for _, k := range f.MapKeys() {
+			keys = append(keys, k.String())
+		}
+		return keys, true
+	case reflect.Slice:
+		for i := 0; i < f.Len(); i++ {
+			e := f.Index(i)
+			if e.Kind() == reflect.Ptr {
+				e = e.Elem()
+			}
+			if e.Kind() != reflect.Struct {
+				return nil, false
+			}
+			found := false
+			for j := 0; j < e.NumField(); j++ {
+				if e.Field(j).Kind() == reflect.String {
+					keys = append(keys, e.Field(j).String())
+					found = true
+					break
+				}
+			}
+			if !found {
+				return nil, false
+			}
+		}
+		return keys, true
+	}
+	return nil, false
+}
 
 // receives the keys bgpController.notifyAdsChanged reports (speaker/main.go turns them into ServiceBGPStatus events)
 var vbAdsChanged func(string)
@@ -1241,6 +1328,7 @@ func vbRunHistory(out *vOut, id int, kind string, h []vbEv) {
 	w := &vbWorld{svcs: map[int]vbEv{}}
 	var steps []string
 	failed := false
+	prevRun := map[int]string{}
 	// the status publication: ads-changed notifications -> ServiceBGPStatusReconciler -> stored ServiceBGPStatus
 	changed := map[string]bool{}
 	vbAdsChanged = func(k string) { changed[k] = true }
@@ -1308,6 +1396,46 @@ func vbRunHistory(out *vOut, id int, kind string, h []vbEv) {
 				w.labels = e.Labels
 			}
 			out.Stat("op_node", 1)
+		}
+		// ---- generator-side coverage counters (computed from the inputs and the statement only, never from the code's answers)
+		{
+			nowRun := map[int]string{}
+			for _, p := range w.peers {
+				if vbShouldRun(p, w.labels) {
+					pb, _ := json.Marshal(p)
+					nowRun[p.Name] = string(pb)
+					if len(vbIntended(w, p.Name)) > 0 {
+						out.Stat("gen_selected_peer_with_routes", 1)
+					}
+				}
+			}
+			if e.Op == "node" || e.Op == "cfg" {
+				for pn, was := range prevRun {
+					if now, ok := nowRun[pn]; !ok {
+						out.Stat("gen_peer_stops_by_"+e.Op, 1)
+					} else if now == was && e.Op == "cfg" {
+						out.Stat("gen_cfg_keeps_running_peer_unchanged", 1)
+					} else if now != was {
+						out.Stat("gen_cfg_changes_running_peer", 1)
+					}
+				}
+			}
+			prevRun = nowRun
+			for sv, ev := range w.svcs {
+				one := &vbWorld{svcs: map[int]vbEv{sv: ev}}
+				np := 0
+				for pn := range nowRun {
+					if len(vbIntended(one, pn)) > 0 {
+						np++
+					}
+				}
+				if np > 0 {
+					out.Stat("gen_service_intended_at_some_peer", 1)
+				}
+				if np > 1 {
+					out.Stat("gen_service_intended_at_several_peers", 1)
+				}
+			}
 		}
 		// ---- observe
 		live, dup := sm.live()
@@ -1821,6 +1949,9 @@ func vbRunSessParams(out *vOut, m vbPMode, steps int, r *rand.Rand, script []int
 			names[p.Name] = true
 			sel := vbSelectedFor(p, nodeLabels)
 			ls := liveBy[p.Name]
+			if sel {
+				out.Stat("gen_sessparams_selected_peers", 1)
+			}
 			if !sel {
 				if len(ls) != 0 {
 					fail("bgp-session-liveness", fmt.Sprintf("peer %s is not selected for this node but has %d live sessions", p.Name, len(ls)))
